@@ -51,6 +51,59 @@ def run(chk):
         raise vplib.Machinery("CPRNG trace validation crashed: %s" % tv.error)
     else:
         chk.traces += 1
+    # (ii-b) the repository's OWN tests as a trace source: their cache operations, recorded through the hooks, must be
+    # explainable by NonrevCache.tla (TLC searches for an interleaving of the per-goroutine sequences)
+    rt = os.path.join(d, "repotrace.ndjson")
+    tests = "TestNonrevCacheConcurrent|TestSharedCredentialConcurrentNonrevDisclosure|TestFullIssueAndShowWithRevocation|TestNotRevoked|TestRevoked|TestKeyshareResponse$"
+    rc, out = vplib.gotest(["."], tests, env={"VERIF_TRACE": rt}, timeout=900)
+    if rc != 0 or not os.path.exists(rt):
+        chk.extra["repo_test_trace"] = "skipped: the repository's tests did not pass with -tags verif (rc=%d)" % rc
+    else:
+        import collections
+        bycred = collections.OrderedDict()
+        for ln in open(rt):
+            e = json.loads(ln)
+            bycred.setdefault(e["cred"], []).append(e)
+        creds = []
+        for cid, es in bycred.items():
+            calls, seqno, cur = [], collections.Counter(), {}
+            for e in es:
+                g, p = e["g"], e["ev"]
+                if p in ("prepare.recv.before", "consume.recv.before"):
+                    cur[g] = {"g": g, "seq": seqno[g], "kind": "prep" if p.startswith("prepare") else "cons", "got": False, "b": 0, "stored": False}
+                    seqno[g] += 1
+                elif g not in cur:
+                    raise vplib.Machinery("repo test trace: event %s without an open call" % p)
+                elif p == "prepare.recv.cached":
+                    cur[g]["got"] = True
+                elif p == "prepare.send.before":
+                    cur[g]["b"] = e["b"]
+                elif p in ("prepare.send.stored", "prepare.send.discarded"):
+                    cur[g]["stored"] = p.endswith("stored")
+                    calls.append(cur.pop(g))
+                elif p == "consume.recv.cached":
+                    cur[g]["got"], cur[g]["b"] = True, e["b"]
+                    calls.append(cur.pop(g))
+                elif p == "consume.recv.empty":
+                    calls.append(cur.pop(g))
+            if len(calls) > 24:
+                calls = calls[:24]
+            creds.append(calls)
+        ncalls = sum(len(c) for c in creds)
+        rv = vplib.tlc("NonrevCacheTrace", "NonrevCache.repotrace.cfg", workers=8, timeout=900, allow_fail=True,
+                       files={"ctrace.json": json.dumps(creds)})
+        chk.add_tlc(rv, "NonrevCacheTrace", "NonrevCache.repotrace.cfg", "%d cache calls on %d credentials recorded from the repository's own tests" % (ncalls, len(creds)))
+        bad = [x for x in rv.invariant_violated if x != "NotAccepted"]
+        if rv.error:
+            raise vplib.Machinery("repo test trace validation crashed: %s" % rv.error)
+        if "NotAccepted" not in rv.invariant_violated or bad:
+            chk.add_violation({"kind": "repo-test-recording-not-explained",
+                               "what": "the cache operations recorded from the repository's own tests are not a behaviour of NonrevCache.tla (%s)" % (bad or "no interleaving consumes all events"),
+                               "credentials": len(creds), "calls": ncalls})
+        else:
+            chk.traces += len(creds)
+            chk.evaluations += ncalls
+            chk.extra["repo_test_trace"] = {"credentials": len(creds), "calls": ncalls}
     # (iii) stress under the race detector
     res = vplib.vh("cc", ["stress", "--tier", T, "--seed", str(chk.seed)], timeout=3000, race=True, env={"GORACE": "halt_on_error=0 exitcode=0 log_path=%s" % os.path.join(d, "race-stress")})
     chk.add_replay(res, "race_stress")
